@@ -661,12 +661,19 @@ def k_model_pml(ctx, c0, per):
         pmls = CP.pml_list(sc)
         psiE = {p.name: tuple(jnp.asarray(x) for x in psi[face_of(p)][:2]) for p in pmls}
         psiH = {p.name: tuple(jnp.asarray(x) for x in psi[face_of(p)][2:]) for p in pmls}
-        arrays = CP.with_psi(Y.with_state(sc, cur["E"], cur["H"], cur["ie"], cur["im"]), psiE, psiH)
+        def plain(arr):
+            """this K step runs on the lossless diagonal tier of the CPML model: drop conductivity arrays that placed
+            Material boxes may have allocated (they belong to the oracle and to k_model)"""
+            for name in ("electric_conductivity", "magnetic_conductivity"):
+                if getattr(arr, name) is not None:
+                    arr = arr.aset(name, None)
+            return arr
+        arrays = CP.with_psi(plain(Y.with_state(sc, cur["E"], cur["H"], cur["ie"], cur["im"])), psiE, psiH)
         st = Y.impl_forward(sc, arrays, t=1, n=1)
         out = {"E": np.asarray(st[1].fields.E), "H": np.asarray(st[1].fields.H),
                "psi": {face_of(p): [np.asarray(x) for x in (*st[1].fields.psi_E[p.name], *st[1].fields.psi_H[p.name])] for p in pmls}}
         zpsiE = {p.name: tuple(jnp.zeros(p.grid_shape) for _ in range(2)) for p in pmls}
-        zero = CP.with_psi(Y.with_state(sc, np.zeros_like(cur["E"]), np.zeros_like(cur["H"]), cur["ie"], cur["im"]), zpsiE, zpsiE)
+        zero = CP.with_psi(plain(Y.with_state(sc, np.zeros_like(cur["E"]), np.zeros_like(cur["H"]), cur["ie"], cur["im"])), zpsiE, zpsiE)
         tt = jnp.asarray(1, dtype=jnp.int32)
         jE = np.asarray(update_E(tt, zero, sc.objects, sc.config, True).fields.E)
         jH = np.asarray(update_H(tt, zero, sc.objects, sc.config, True).fields.H)
